@@ -1,0 +1,18 @@
+//go:build verif
+
+package elasticsearch
+
+// Verification hooks (build tag "verif" only; add-only).  The bulk-service interfaces are unexported;
+// the aliases below let an external harness implement them, and SetBulkServiceFactoryV installs such
+// an implementation before Setup (which only creates a real connection factory when none is set).
+
+// BulkServiceV is the bulkService interface.
+type BulkServiceV = bulkService
+
+// BulkServiceFactoryV is the bulkServiceFactory interface.
+type BulkServiceFactoryV = bulkServiceFactory
+
+// SetBulkServiceFactoryV installs the factory the index client will use; call it before Setup.
+func (i *Elasticsearch) SetBulkServiceFactoryV(f BulkServiceFactoryV) {
+	i.serviceFactory = f
+}
